@@ -152,6 +152,12 @@ type cworld struct {
 }
 
 func newWorld(r *simkit.Run, n int, mkStore func(id ch.NodeID) (channelstore.Factory, func())) (*cworld, error) {
+	return newWorldBatchWait(r, n, mkStore, time.Millisecond)
+}
+
+// newWorldBatchWait is newWorld with an explicit leader append flush window
+// (a longer window keeps accepted appends queued across scheduler steps).
+func newWorldBatchWait(r *simkit.Run, n int, mkStore func(id ch.NodeID) (channelstore.Factory, func()), batchWait time.Duration) (*cworld, error) {
 	w := &cworld{r: r, sw: simkit.NewWorld(r), nodes: map[ch.NodeID]*cnode{}, metas: []ch.Meta{{}}}
 	w.id = ch.ChannelID{ID: "room", Type: 2}
 	w.key = ch.ChannelKeyForID(w.id)
@@ -165,7 +171,7 @@ func newWorld(r *simkit.Run, n int, mkStore func(id ch.NodeID) (channelstore.Fac
 			MailboxSize:  64, // default 1024 per priority queue and per pool queue costs ~0.2 s of allocation per node
 			// enough workers that parked RPCs never saturate the ants pools
 			StoreAppendWorkers: 4, StoreApplyWorkers: 4, RPCWorkers: 16,
-			AppendBatchMaxWait: time.Millisecond,
+			AppendBatchMaxWait: batchWait,
 			Store:              nd.fac,
 			Transport:          channels.NewTransportClient(&simCaller{w: w, from: id}),
 			MetaSource:         metaView{w: w, n: nd},
